@@ -171,6 +171,32 @@ class Ctx:
         self.inconclusive.append({"query": name, "reason": s.reason_unknown()})
         return Result("unknown", seconds=dt, solver=s)
 
+    def query_many(self, tasks, nproc=None):
+        """Discharge many independent queries on forked workers (z3 terms are inherited by
+        fork, only plain data comes back).  task = dict(name, assumptions, goal, ex=None,
+        timeout=None, extract=None, sample=None, expect=None); ``extract(model)`` runs in the
+        worker and must return plain data.  With expect='sat' the formula list
+        ``assumptions`` (goal ignored) is a witness twin.  Returns list of Result
+        (model = extracted data)."""
+        global _TASKS
+        import multiprocessing as mp
+        nproc = nproc or min(16, os.cpu_count() or 1, max(1, len(tasks)))
+        _TASKS = (self, tasks)
+        if len(tasks) <= 1 or nproc == 1:
+            raw = [_run_task(i) for i in range(len(tasks))]
+        else:
+            with mp.get_context("fork").Pool(nproc) as pool:
+                raw = pool.map(_run_task, range(len(tasks)), chunksize=1)
+        out = []
+        for t, (recs, verdict, data, dt, inc, herr) in zip(tasks, raw):
+            self.queries.extend(recs)
+            self.inconclusive.extend(inc)
+            for h in herr:
+                self.harness_error(h)
+            out.append(Result(verdict, model=data, seconds=dt))
+        _TASKS = None
+        return out
+
     def witness(self, name, formulas, ex=None, timeout=None, expect="sat"):
         """A reachability / sanity twin: ``formulas`` must be satisfiable."""
         timeout = timeout or min(self.default_timeout, 60)
@@ -285,6 +311,30 @@ class Ctx:
         if self.harness_errors:
             return EXIT_HARNESS
         return EXIT_OK
+
+
+_TASKS = None
+
+
+def _run_task(i):
+    ctx, tasks = _TASKS
+    t = tasks[i]
+    sub = Ctx.__new__(Ctx)
+    sub.__dict__.update(ctx.__dict__)
+    sub.queries, sub.inconclusive, sub.harness_errors, sub._vac_cache = [], [], [], {}
+    sub.harness_error = lambda msg: sub.harness_errors.append(msg)
+    t0 = time.time()
+    if t.get("expect") == "sat":
+        r, mdl = sub.witness(t["name"], t["assumptions"], ex=t.get("ex"), timeout=t.get("timeout"), expect=t.get("expect_strict"))
+        verdict = {"sat": "cex", "unsat": "holds", "unknown": "unknown"}[r]
+    else:
+        res = sub.query(t["name"], t["assumptions"], t["goal"], ex=t.get("ex"), timeout=t.get("timeout"),
+                        sample=t.get("sample"), vacuity=t.get("vacuity", True), logic=t.get("logic"))
+        verdict, mdl = res.verdict, res.model
+    data = None
+    if mdl is not None and t.get("extract") is not None:
+        data = t["extract"](mdl)
+    return sub.queries, verdict, data, time.time() - t0, sub.inconclusive, sub.harness_errors
 
 
 def load_known_findings():
